@@ -13,6 +13,6 @@ PY
 )
   cd /verif/engine && VERIF_REPO_ROOT=$d /verif/bin/gosym check $prop --tier $tier > $out/$m.log 2>&1
   echo "$m $prop exit=$? $(grep -c '^VIOLATION' $out/$m.log) violations; $(grep '^VIOLATION' -A1 $out/$m.log | sed -n 2p | cut -c1-150)"
-  rm -rf $d
+  rm -rf $d /tmp/verif_scratch_mut_$m
   )
 done
